@@ -338,6 +338,11 @@ Attribution(r) ==
   \cup (IF Has_(r, "self") /\ "raw_host" \in DOMAIN r.self /\ Ok(r.self.raw_host) /\ V(r.self.raw_host) # None
            /\ Has(V(r.self.raw_host)[1], COLON) /\ CanonIPv6Host(V(r.self.raw_host)[1]) = <<>>
         THEN {"Dev_BracketedNonIPv6LosesBrackets"} ELSE {})
+  \* ... or only the five parts of the receiver were recorded: its str() worked (from the constructor's eager entries) although
+  \* the STORED authority does not parse any more -- which only the bracket loss produces on an auto-encoding route
+  \cup (IF Has_(r, "self") /\ "val" \in DOMAIN r.self /\ Ok(r.self.val) /\ Netloc5(r.self) # <<>>
+           /\ "str" \in DOMAIN r.self /\ Ok(r.self.str) /\ "exc" \in DOMAIN SplitNetloc(Netloc5(r.self))
+        THEN {"Dev_BracketedNonIPv6LosesBrackets"} ELSE {})
   \* Dev_MakeChildClimbEatsRoot: '/' and joinpath with a '..' that climbs above the root (trigger only)
   \cup (IF r.act \in {"truediv", "joinpath"} /\ Has_(r, "self") /\ "parts" \in DOMAIN r.self /\ Ok(r.self.parts)
            /\ ClimbsAboveRoot(OldSegs(r.self) \o NewSegs(IF r.act = "truediv" THEN <<r.args.v>> ELSE r.args.vs))
